@@ -29,6 +29,17 @@ WALL_BUDGET = {"quick": 300, "thorough": 2400}
 ASSUMPTIONS = ["no borderline singular values: non-zero values are >= 1/4, far above eps*max(m,n)*sigma_max"]
 
 
+
+def _dedupe(cases_):
+    """the same cell can be listed by two enumerations (e.g. a tall shape that the thorough bound also reaches): keep the first."""
+    seen, out_ = set(), []
+    for c in cases_:
+        if c["key"] not in seen:
+            seen.add(c["key"])
+            out_.append(c)
+    return out_
+
+
 def cases(tier, seed):
     S = 4 if tier == "quick" else 6
     out = []
@@ -73,7 +84,7 @@ def cases(tier, seed):
             for signs in itertools.product((1, -1, 0), repeat=len(comp)):
                 for kind in ("id", "mono", "hh"):
                     out.append({"key": f"moore/n={n}/c={'-'.join(map(str, comp))}/s={''.join(str(s + 1) for s in signs)}/{kind}", "grp": "moore", "n": n, "comp": list(comp), "signs": list(signs), "kind": kind})
-    return out
+    return _dedupe(out)
 
 
 def invertible(idx, n, fill):
